@@ -44,7 +44,7 @@ def parseOp (line : String) : Option Op :=
     let f? : Option Fmt := match fmt with | "bmp" => some .bmp | "pnm" => some .pnm | "tga" => some .tga | _ => none
     let e? : Option Entry := match entry with
       | "info" => some .info | "image" => some .image | "view" => some .view | "conv" => some .conv | "scan" => some .scan | _ => none
-    let d? : Option Dev := match dev with | "name" => some .file | "file" => some .file | "stream" => some .stream | _ => none
+    let d? : Option Dev := match dev with | "name" => some .file | "file" => some .file | "stream" => some .stream | "sstream" => some .sstream | _ => none
     let t? : Option Dst := match dst with
       | "rgb8" => some .rgb8 | "rgba8" => some .rgba8 | "gray8" => some .gray8 | "gray1" => some .gray1 | "-" => some .none | _ => none
     match f?, e?, d?, t?, ints [x0, y0, dw, dh, vw, vh], unhex hex with
